@@ -256,11 +256,7 @@ pub fn run(ctx: &Ctx) -> Report {
 				"s://h/p?q#fX", "s://h/p?qX#f", "s://hX/p?q#f", "X//h", "a/X:b",
 			]);
 			// schemes that software commonly treats specially (this crate: "data" under its feature)
-			for sch in ["data", "DATA", "Data", "http", "https", "file", "ftp", "urn", "mailto", "tag", "ws", "wss", "about", "blob", "javascript"] {
-				for tpl in ["S:", "S:a", "S:,a?b", "S:,a?", "S:,a#f?x", "S://h/p?q#f", "S:/p?q", "S:?q", "S:#f", "S:a:b?q#f", "S:text/plain;base64,QQ==?x#y", "S://h?q", "S://u@h:1"] {
-					texts.push(tpl.replace('S', sch).into_bytes());
-				}
-			}
+			texts.extend(domains::well_known_scheme_texts());
 			// every printable ASCII character directly BEFORE a delimiter, at every offset modulo 8 / 16
 			// (word-at-a-time scanners depend on the neighbouring byte and on the position in the block)
 			for k in 0..=16usize {
@@ -447,6 +443,10 @@ pub fn run_c03(ctx: &Ctx) -> Report {
 			"h:9", "h:0", "h:1234567890", "h:0987654321", "u@h:9", "[::1]:9", "[::9]:90", "255.249.199.9", "9.8.7.6:5", "[9:a:b:c:d:e:f:0]", "[A:B:C:D:E:F:0:9]:9",
 			"[::ffff:9.8.7.6]", "[v9.a]", "[vF.9:9]", "[v1.x:y]", "[v1.x:y]:80", "u@[v1.x:y]:80", "[vA.-._~!$&'()*+,;=:z]", "[v1.fe80::a]:8080", "u@[v1.aaaaaaaaaaaaaaaaaaaaaaaaaaaaaaaaaaaaaaaaaaaaaaaaaaaaaaaaaaaaaaaaaaaa:x:y]:80", "[v1.aaaaaaaaaaaaaaaaaaaaaaaaaaaaaaaaaaaaaaaaaaaaaaaaaaaaaaaaaaaaaaaaaaaa:x:y]", "%0F%9A%af%Fa%bC", "%99@%99:99", "!$&'()*+,;=@!$&'()*+,;=:9", "u:p:q:r:s:t:u:v:w@[1:2:3:4:5:6:7:8]:80", "a.b.c.d.e.f.g.h.i.j.k",
 			"0", "9", "09", "a9", "9a", "-._~", "%2D%2E%5F%7E",
+			// ports around the limits of the machine integer types (the grammar has no limit)
+			"h:255", "h:256", "h:65535", "h:65536", "h:4294967295", "h:4294967296", "h:18446744073709551615", "h:18446744073709551616", "h:340282366920938463463374607431768211456",
+			"u:p@[::1]:18446744073709551616", "h:00000000000000000000000000000000000000001", "h:99999999999999999999999999999999999999999999999999999999999999999999",
+			"u:18446744073709551616@h", "18446744073709551616", "u:1@h:18446744073709551616", "18446744073709551616:1",
 		] {
 			let t = domains::b(t);
 			if fr.valid(Kind::Authority, &t) {
